@@ -68,6 +68,10 @@ void run_concurrent(const Config &cfg, thread_fn fn, void *arg, Result &out);
 // allocation fault attached to the next library call of this thread: its k-th malloc/calloc returns NULL (0 = none)
 void arm_alloc_fault(int k);
 bool alloc_fault_fired();
+bool alloc_fault_armed();
+std::string alloc_fault_signature();       // of the fault armed last on this thread: fired or not, sizes requested up to it
+// run fn(arg) on a new OS thread and wait for it: the main thread of one simulated process (fresh thread-local storage)
+void on_fresh_thread(void (*fn)(void *), void *arg);
 // run fn(tid, arg) on the calling (main) thread in sequential mode; returns false if the library aborted / asserted
 bool run_sequential(thread_fn fn, int tid, void *arg);
 typedef void (*abort_hook)(int tid, void *arg);
